@@ -94,3 +94,56 @@ CHECKS["C02"] = NS(
     ],
     PLAN={"quick": [("affine", 16, {"n": 500})], "thorough": [("affine", 16, {"n": 12000})]},
 )
+
+CHECKS["C03"] = NS(
+    MODULE="c03_scales",
+    LEVEL="exploration",
+    LEVEL_TEXT=(
+        "Hypothesis-generated row-class tensors through quantize_weight, AbsmaxOptimizer, MaxOptimizer and absmax_scale "
+        "(all six qtypes, axis None/0/-1, group sizes): form of the scale/zero-point, non-saturation and full-range bounds "
+        "in float64 per group, and a bitwise metamorphic locality relation (replace / rescale / permute / poke other "
+        "rows or groups: scale, zero-point and codes of the untouched group must not change). Exploration."
+    ),
+    LEVEL_NOTE="trusts float64 reference; amax/amin are exact so locality is checked bit-for-bit; qmax is the divisor documented by each entry point (127 for the weight optimizer, finfo/iinfo max for absmax_scale)",
+    TECHNIQUE=PBT + "float64 bounds and bitwise metamorphic relation (locality under perturbation of other rows/groups)",
+    RULE=(
+        "Hypothesis: row-class tensor (as C02) x qtype (6) x entry point x axis x group size x target group x perturbation "
+        "kind. Non-trivial: per-axis/grouped case with >= 2 groups whose absmax differ by > 2x and a perturbation that "
+        "really changes another group. Distinct by (dtype, qtype, entry, axis, shape, group size, perturbation, class vector)."
+    ),
+    ASSUMPTIONS=[
+        "all-zero groups are exempt from the non-saturation and full-range clauses (any scale represents them exactly); their finiteness is C16's subject",
+        "groups whose range reaches the dtype's maximum (known finding D04) are not judged here",
+        "qmax of the weight optimizer is 2^(bits-1)-1 = 127 for float8 as well (its own definition); absmax_scale uses finfo.max",
+    ],
+    PLAN={"quick": [("scales", 16, {"n": 500})], "thorough": [("scales", 16, {"n": 12000})]},
+)
+
+CHECKS["C16"] = NS(
+    MODULE="c16_finite",
+    LEVEL="exploration",
+    LEVEL_TEXT=(
+        "Degenerate-directed generation: tensors assembled row-by-row / group-by-group from zero, constant, one-sided, "
+        "offset, single-non-zero, subnormal, tiny, near-dtype-max and ordinary classes in any mixture through "
+        "quantize_weight (six qtypes); Linear/Conv2d layers with zero / constant / sparse weights with and without "
+        "quantized activations; calibration on zero / constant / tiny / huge batches followed by inference. Oracles: "
+        "finiteness, the C01/C02 per-element bounds, exact zero for zero rows, exact bias for zero-weight layers. Exploration."
+    ),
+    LEVEL_NOTE="trusts float64 reference; rows whose range reaches the dtype's maximum are the recorded known finding (matched by predicate, anything else non-finite is a violation)",
+    TECHNIQUE=PBT + "finiteness invariant, float64 error bounds, exact-output oracle for zero-weight layers",
+    RULE=(
+        "weights: row-class tensors biased towards degenerate classes x 6 qtypes x axis x group size; layers: Linear/Conv2d x weight "
+        "pattern {zeros, zero rows, constant, single row, zero columns} x weight qtype x activation qtype x dtype x bias; calib: "
+        "1-3 batches from {zeros, const, tiny, huge, single, normal} through Linear / MLP / LayerNorm+Linear, then an ordinary batch. "
+        "Non-trivial: at least one degenerate and one ordinary row in the same tensor / a degenerate pattern with activations or bias / "
+        "a degenerate calibration batch. Distinct by (dtype, qtypes, axis, shape, class vector | layer config | batch kinds)."
+    ),
+    ASSUMPTIONS=[
+        "8-bit per-axis quantization of rank-1 tensors is a documented rejection and is discarded",
+        "exactness of 'zero weights -> bias' is asserted bitwise (projection of the bias when output activations are quantized)",
+    ],
+    PLAN={
+        "quick": [("weights", 8, {"n": 600}), ("layers", 4, {"n": 300}), ("calib", 4, {"n": 200})],
+        "thorough": [("weights", 8, {"n": 15000}), ("layers", 4, {"n": 8000}), ("calib", 4, {"n": 5000})],
+    },
+)
